@@ -1715,3 +1715,143 @@ def chk_stack_unsorted():
             if abs(h.nanflow.entries - want_nan) > 1e-12:
                 return f"Stack({ths})[{ck}]: nanflow holds {h.nanflow.entries}, expected {want_nan}"
     return None
+
+
+def _sum_defect(h):
+    """the C05 sum of a binning container (None if it holds)"""
+    K = type(h).__name__
+    if K == "Bin":
+        tot = sum(v.entries for v in h.values) + h.underflow.entries + h.overflow.entries + h.nanflow.entries
+    elif K == "SparselyBin":
+        tot = sum(v.entries for v in h.bins.values()) + h.nanflow.entries
+    elif K in ("CentrallyBin", "IrregularlyBin"):
+        tot = sum(v.entries for _, v in h.bins) + h.nanflow.entries
+    elif K == "Stack":
+        tot = h.bins[0][1].entries + h.nanflow.entries
+    else:
+        return None
+    if abs(tot - h.entries) > 1e-9 * max(1.0, abs(h.entries)):
+        return f"bins and flows hold {tot}, entries is {h.entries}"
+    return None
+
+
+def chk_numpy_edges(K, sums=False):
+    """fill.numpy equals row-wise fill for quantities exactly on (and one ulp around) the bin edges of non-dyadic
+    binnings: the rounding level that the real-arithmetic routing proofs abstract (and where np.histogram-style
+    fast paths place a value by other edges than fill does)."""
+    import random
+
+    import numpy as np
+
+    rnd = random.Random(20261003)
+
+    def qx(d):
+        return d
+
+    def qs(d):
+        return np.ones(len(d)) if isinstance(d, np.ndarray) else 1.0
+
+    kids = {"Count": lambda: hg.Count(), "Sum": lambda: hg.Sum(qs)}
+    for trial in range(400):
+        num = rnd.choice([1, 2, 3, 7, 10, 13, 100])
+        low = rnd.choice([0.0, -1.5, 0.1, 1e-3, -7.0, 1000.0])
+        high = low + rnd.choice([1.0, 0.7, 3.3, 10.0, 1e-2])
+        width = (high - low) / num
+        if K == "Bin":
+            edges = [low + k * (high - low) / num for k in range(-1, num + 2)] + [low + k * width for k in range(num + 1)]
+            mk = lambda c: hg.Bin(num, low, high, qx, c(), c(), c(), c())
+        elif K == "SparselyBin":
+            edges = [low + k * width for k in range(-3, 12)] + [k * width + low for k in (-100, 1000)]
+            mk = lambda c: hg.SparselyBin(width, qx, c(), c(), origin=low)
+        elif K == "CentrallyBin":
+            cs = sorted({low + rnd.uniform(0, 1) * (high - low) for _ in range(min(num, 6) + 1)})
+            edges = [(a + b) / 2 for a, b in zip(cs, cs[1:])] + [a + (b - a) / 2 for a, b in zip(cs, cs[1:])] + cs
+            mk = lambda c: hg.CentrallyBin(cs, qx, c(), c())
+        elif K == "IrregularlyBin":
+            es = sorted({low + rnd.uniform(0, 1) * (high - low) for _ in range(min(num, 6) + 1)})
+            edges = list(es)
+            mk = lambda c: hg.IrregularlyBin(es, qx, c(), c())
+        elif K == "Stack":
+            es = sorted({low + rnd.uniform(0, 1) * (high - low) for _ in range(min(num, 6) + 1)})
+            edges = list(es)
+            mk = lambda c: hg.Stack(es, qx, c(), c())
+        else:
+            return None
+        xs = []
+        for e in edges:
+            xs += [e, float(np.nextafter(e, -INF)), float(np.nextafter(e, INF))]
+        xs += [NAN, low, high, float(np.nextafter(high, -INF))]
+        rnd.shuffle(xs)
+        ws = [rnd.choice([1.0, 0.5, 2.0, 3.25]) for _ in xs]
+        for ck in ("Count", "Sum"):
+            a, b = mk(kids[ck]), mk(kids[ck])
+            for x, w in zip(xs, ws):
+                a.fill(x, w)
+            b.fill.numpy(np.array(xs), np.array(ws))
+            if sums:
+                for how, h in (("fill", a), ("fill.numpy", b)):
+                    m = _sum_defect(h)
+                    if m:
+                        for x in xs:
+                            h1 = mk(kids[ck])
+                            if how == "fill":
+                                h1.fill(x, 1.0)
+                            else:
+                                h1.fill.numpy(np.array([x]), np.array([1.0]))
+                            if _sum_defect(h1):
+                                return f"{K}[{ck}] {how} of the single quantity {x!r}: {_sum_defect(h1)} ({(num, low, high) if K in ('Bin', 'SparselyBin') else h1.toJson()['data']})"
+                        return f"{K}[{ck}] ({num}, {low}, {high}) after {how} of the edge batch: {m}"
+                continue
+            if not approx_eq(a.toJson(), b.toJson(), 1e-12):
+                for x in xs:
+                    a1, b1 = mk(kids[ck]), mk(kids[ck])
+                    a1.fill(x, 1.0)
+                    b1.fill.numpy(np.array([x]), np.array([1.0]))
+                    if js(a1) != js(b1):
+                        return f"{K}[{ck}] {a1.toJson()['data'] if K in ('CentrallyBin', 'IrregularlyBin', 'Stack') else (num, low, high)}: the quantity {x!r} lands in different bins under fill and fill.numpy"
+                return f"{K}[{ck}] ({num}, {low}, {high}): fill and fill.numpy differ on the edge batch"
+    return None
+
+
+def chk_stack_nan_thresholds():
+    """C10 on Stacks with NaN thresholds (Stack.build; outside the wf of the proved Stack contracts): a NaN threshold
+    matches only a NaN threshold at the same position: everything else is rejected by + and += in both operand orders."""
+    c = lambda e: hg.Count.ed(e)
+    nan = NAN
+
+    def mk(ths):
+        return hg.Stack.ed(3.0, [(t, c(3.0 - i)) for i, t in enumerate(ths)], c(0.0))
+
+    data = [datum(0.5), datum(1.5), datum(2.5)]
+    parts = [fill_all(hg.Bin(3, 0.0, 3.0, qx), data[:n]) for n in (1, 2, 3)]
+    built = lambda: hg.Stack.build(*parts)
+    ordinary = lambda: fill_all(hg.Stack([1.0, 2.0], qx, hg.Bin(3, 0.0, 3.0, qx)), data)
+    pairs = [
+        ("Stack.build(...)", built, "an ordinary Stack with as many levels", ordinary, False),
+        ("thresholds (nan, 1.0)", lambda: mk([nan, 1.0]), "thresholds (nan, 2.0)", lambda: mk([nan, 2.0]), False),
+        ("thresholds (nan, 1.0)", lambda: mk([nan, 1.0]), "thresholds (1.0, nan)", lambda: mk([1.0, nan]), False),
+        ("thresholds (nan, 1.0)", lambda: mk([nan, 1.0]), "thresholds (-inf, 1.0)", lambda: mk([-INF, 1.0]), False),
+        ("thresholds (nan, nan)", lambda: mk([nan, nan]), "thresholds (nan, nan, nan)", lambda: mk([nan, nan, nan]), False),
+        ("thresholds (nan, 1.0)", lambda: mk([nan, 1.0]), "thresholds (nan, 1.0)", lambda: mk([nan, 1.0]), True),
+        ("Stack.build(...)", built, "Stack.build(...)", built, True),
+    ]
+    for na, fa, nb, fb, compatible in pairs:
+        for order in (0, 1):
+            for inplace in (False, True):
+                x, y = (fa(), fb()) if order == 0 else (fb(), fa())
+                nx, ny = (na, nb) if order == 0 else (nb, na)
+                try:
+                    if inplace:
+                        x += y
+                    else:
+                        x + y
+                    raised = None
+                except hg.defs.ContainerException as e:
+                    raised = e
+                except Exception as e:
+                    return f"Stack with {nx} {'+=' if inplace else '+'} Stack with {ny}: raised {e!r} instead of ContainerException"
+                if compatible and raised is not None:
+                    return f"Stack with {nx} {'+=' if inplace else '+'} Stack with {ny}: rejected ({raised}) although the thresholds agree"
+                if not compatible and raised is None:
+                    return f"Stack with {nx} {'+=' if inplace else '+'} Stack with {ny}: merged silently although the thresholds differ"
+    return None
